@@ -13,7 +13,7 @@
    observation of the real engine.  PARTIAL: the resolver call log equality is decided per run. *)
 From Coq Require Import ZArith List String Bool.
 From TV Require Import Py.Prelude Model.Schema Model.ImplInput Model.ImplExec Model.SpecExec
-  Proofs.CollectRefine Proofs.ExecRefine.
+  Proofs.CollectRefine Proofs.ExecRefine Proofs.ExecCalls.
 Import ListNotations.
 Open Scope string_scope.
 
@@ -101,9 +101,17 @@ Example C01_spec_has_a_result :
   exists d o, spec_execute_operation exs2 exd [] exU exop PNone = Some (d, o).
 Proof. right. vm_compute. eauto. Qed.
 
+(* "each resolver is called exactly once per collected response key and parent object": the resolver invocations of
+   a request are at pairwise different response paths, for every schema, document, variables, user code, configuration
+   (per-field settings included), operation and initial value.  (At least once: the data is the specification's.) *)
+Theorem C01_no_resolver_called_twice sch doc vs U cfg op root r :
+  execute_operation sch doc vs U cfg op root = OVal r -> NoDup (rsites (r_log r)).
+Proof. exact (execute_operation_calls_once sch doc vs U cfg op root r). Qed.
+
 Print Assumptions C01_data_refines_spec.
 Print Assumptions C01_field_refines_spec.
 Print Assumptions C01_collect_fields_refines_spec.
 Print Assumptions C01_response_keys_nodup.
 Print Assumptions C01_response_keys_first_appearance.
 Print Assumptions C01_group_holds_all_fields.
+Print Assumptions C01_no_resolver_called_twice.
